@@ -92,8 +92,8 @@ theorem expect_body_not_preread (hs : List Header) (fr : Framing)
         all_goals simp_all
 
 example : (Conn.run b!"POST / HTTP/1.1\r\nexpect: 100-Continue\r\nContent-Length: 3\r\n\r\nabc" .eof
-    (fun _ => ⟨2, 3, 1, .drop⟩)).statuses = [100, 500] := by decide
+    (fun _ => ⟨2, 3, 1, .drop, false⟩)).statuses = [100, 500] := by decide
 example : (Conn.run b!"POST / HTTP/1.1\r\nexpect: 100-Continue\r\nContent-Length: 3\r\n\r\nabc" .eof
-    (fun _ => ⟨0, 0, 1, .drop⟩)).statuses = [500] := by decide
+    (fun _ => ⟨0, 0, 1, .drop, false⟩)).statuses = [500] := by decide
 
 end TH.Props.C18
